@@ -90,6 +90,35 @@ func checkC05Src(c C05SrcCase) error {
 	if err := canary(e); err != nil {
 		return fmt.Errorf("%v (after source %s)", err, q(trunc(string(c.Src))))
 	}
+	// the same source served by a loader under a name of its own, rendered twice: a failure of
+	// the first load must leave the engine usable for the second call and for the canary
+	tm["c05_under_test"] = string(c.Src)
+	mk := func() *twig.Engine {
+		e2 := newEngine(tm)
+		NewSpies().Install(e2)
+		e2.EnableSandbox(allowAll{})
+		return e2
+	}
+	e2 := mk()
+	for i := 0; i < 2; i++ {
+		r := guardT(c05Watchdog, func() (string, error) { return e2.Render("c05_under_test", ctx) })
+		if r.Hang {
+			// confirm on a fresh engine with a long limit before calling it a hang
+			e3 := mk()
+			for k := 0; k <= i; k++ {
+				if r3 := guardT(60*time.Second, func() (string, error) { return e3.Render("c05_under_test", ctx) }); r3.Hang {
+					return fmt.Errorf("call %d of Engine.Render does not return (60 s) for the loader-served source %s", k+1, q(trunc(string(c.Src))))
+				}
+			}
+			return nil
+		}
+		if r.Panic != "" {
+			return fmt.Errorf("panic %q on loader-served source %s\n%s", r.Panic, q(trunc(string(c.Src))), stackHead(r.Stack))
+		}
+	}
+	if err := canary(e2); err != nil {
+		return fmt.Errorf("%v (after loader-served source %s)", err, q(trunc(string(c.Src))))
+	}
 	return nil
 }
 
@@ -187,7 +216,7 @@ func lexTwig(src string) []string {
 }
 
 var hostileTokens = []string{"{%", "-%}", "%}", "{{", "}}", "{{-", "(", ")", "|", "=", "in", "as", "with", "import", "endverbatim", "\x00", "\xff", "'", "\"", "[", "{", ",", ".", "~", "?", ":", "is", "not",
-	"endfor", "endif", "else", "elseif", "endblock", "endmacro", "only", "ignore", "missing", "sandboxed", "extends", "include", "from", "macro", "block", "set", "do", "apply", "verbatim", "spaceless", "-", "\\", "#}", "{#", "é", "99999", "1e3", "..", "||", "&&", "??"}
+	"endfor", "endif", "else", "elseif", "endblock", "endmacro", "only", "ignore", "missing", "sandboxed", "extends", "include", "from", "macro", "block", "set", "do", "apply", "verbatim", "spaceless", "-", "\\", "#}", "{#", "é", "99999", "1e3", "..", "||", "&&", "??", "'a\\'", "\"b\\\"", "'\\'", "\\'", "'x\\\\'"}
 
 const c05SrcRule = "sources derived from generated templates (control flow, inheritance, includes, macros, apply/spaceless) by mutation of a coarse token stream: every prefix, every single-token deletion, duplication and adjacent swap, and replacement of each token by one of 60 hostile tokens (delimiters, keywords, quotes, NUL, 0xFF, huge numbers); each mutant is parsed and rendered with the other templates of the set loadable and a context of many Go value shapes, under recover and a 5 s watchdog, followed by a canary; non-trivial = the mutant contains at least one tag delimiter (it reaches the parser past tokenisation); distinct by mutant source. Excluded by construction: a template that can reach itself by name, panicking user callbacks"
 
@@ -353,6 +382,8 @@ func c05Shapes() []*E {
 	}
 	// long sequences (code paths that switch strategy above some length), with hashable and
 	// unhashable elements
+	// typed nil pointers to a struct and to a map, a struct whose pointer field is nil / set
+	base = append(base, ZT(Hash(nil, nil), "nilptrstruct"), ZT(Hash(nil, nil), "nilptrmap"), ZT(Hash(nil, nil), "outer"), ZT(Hash([]string{"Author"}, []*E{Str("au")}), "outer"))
 	base = append(base, c05Big(func(i int) *E { return Int(int64(i)) }), c05Big(func(i int) *E { return List(Int(int64(i))) }),
 		c05Big(func(i int) *E { return Hash([]string{"k"}, []*E{Int(int64(i))}) }), ZT(c05Big(func(i int) *E { return Int(int64(i)) }), "[]int"))
 	return base
@@ -368,7 +399,7 @@ func c05Big(el func(i int) *E) *E {
 
 var c05UnaryExprs = []string{"x", "not x", "-x", "+x", "x|abs", "x|upper", "x|lower", "x|trim", "x|capitalize", "x|title", "x|length", "x|first", "x|last", "x|reverse", "x|sort", "x|keys", "x|join(',')", "x|join", "x|split(',')", "x|slice(1)", "x|slice(0, 2)", "x|slice(-1)",
 	"x|default('d')", "x|escape", "x|e", "x|raw", "x|striptags", "x|nl2br", "x|spaceless", "x|url_encode", "x|json_encode", "x|round", "x|round(1, 'ceil')", "x|number_format(2)", "x|number_format", "x|date('Y-m-d')", "x|format('a')", "x|replace('a', 'b')", "x|replace({'a': 'b'})",
-	"x|merge([1])", "x|merge({'a': 1})", "x|merge(x)", "x|count", "x|trim('a')", "x.a", "x.Name", "x.k", "x['a']", "x['k']", "x[0]", "x[1]", "x[-1]", "x[undefined]", "x[null]", "x['0']", "x.a.b", "x[0][0]", "x.Tags[0]",
+	"x|merge([1])", "x|merge({'a': 1})", "x|merge(x)", "x|count", "x|trim('a')", "x.a", "x.Name", "x.k", "x['a']", "x['k']", "x[0]", "x[1]", "x[-1]", "x[undefined]", "x[null]", "x['0']", "x.a.b", "x[0][0]", "x.Tags[0]", "x.Author", "x.Author.Name", "x.Author.Tags[0]", "x.Meta", "x.Meta.k", "x.Inner", "x.Inner.Z", "x.Count",
 	"x is defined", "x is empty", "x is null", "x is even", "x is odd", "x is iterable", "x is divisible_by(2)", "x is divisible_by(0)", "x is same_as(x)", "x is constant('a')", "x is starts_with('a')", "x is matches('/a/')", "x is matches('[')",
 	"max(x)", "min(x)", "max(x, 1)", "length(x)", "range(x)", "range(1, x)", "range(1, 3, x)", "range(x, x, x)", "cycle(x, 1)", "cycle(x, -1)", "cycle([1,2], x)", "merge(x, x)", "merge(x, [1])", "dump(x)", "json_encode(x)", "date(x)", "date(x, 'Y')", "random(x)", "constant(x)",
 	"x ? 1 : 2", "x ?: 'd'", "x ?? 'd'", "x ~ x", "x in x", "x matches x", "x starts with x", "x ends with x", "x == x", "x < x", "x + x", "x - x", "x * x", "x / x", "x % x", "x ^ x", "x and x", "x or x", "x|batch(2)", "x|first|first", "x|last.a", "x|keys|first", "x|sort|first", "x|reverse|join"}
